@@ -10,4 +10,5 @@ Extraction Language OCaml.
 Extraction "model.ml" expand expand_flat expand_alt_errs items_toks flat all_traits trait_name err_name
   invalid_classes invalid_classes_modulo_gap known_gap
   model_eq model_cmp model_partial_cmp model_hash model_debug model_clone model_clone_from
-  model_deref model_deref_mut model_deref_mut_write model_into model_default.
+  model_deref model_deref_mut model_deref_mut_write model_into model_default
+  model_union_eq model_union_hash model_union_debug model_union_clone.
